@@ -562,7 +562,7 @@ func genCase(r *hx.Rand, nops int, letters string, conc int, bigU bool) input {
 func gen(r *hx.Rand, tier string) []json.RawMessage {
 	var out []json.RawMessage
 	add := func(in input) { out = append(out, hx.J(in)) }
-	nSeq, nConc := 70, 10
+	nSeq, nConc := 60, 6
 	if tier == "thorough" {
 		nSeq, nConc = 450, 40
 	}
@@ -585,7 +585,7 @@ func gen(r *hx.Rand, tier string) []json.RawMessage {
 		add(genCase(r, r.Range(1, 12), "ABCE", 1, true))
 	}
 	for i := 0; i < nConc; i++ {
-		add(genCase(r, r.Range(40, 200), "ABCE", []int{2, 4, 8}[r.Intn(3)], false))
+		add(genCase(r, r.Range(40, 120), "ABCE", []int{2, 4, 8}[r.Intn(3)], false))
 	}
 	return out
 }
@@ -621,7 +621,7 @@ func init() {
 			"bool, strings, one or two location-tagged fields, ignored fields, unique/index tags), batch size 1 / mid-stream / never full " +
 			"(verif-tagged setter), 1..40 inserts with explicit Flush calls interleaved, values incl. quotes, SQL fragments, unicode, " +
 			"int64/uint64 extremes, infinities, -0; then Close and read back with the datareader (location ids resolved) plus the raw " +
-			"location table. Concurrent sessions: 40..200 inserts split over 2/4/8 goroutines. Directed: uint64 >= 2^63, complex128 (known " +
+			"location table. Concurrent sessions: 40..120 inserts split over 2/4/8 goroutines. Directed: uint64 >= 2^63, complex128 (known " +
 			"findings). Non-trivial: >= 3 inserts and a batch size that triggers a mid-stream flush. Distinct = distinct input hash.",
 		Gen: gen, Run: run, Shrink: shrink,
 	})
